@@ -61,16 +61,15 @@ impl<'a, Q: Query> QueryOne<'a, Q> {
     }
 
     /// Helper to change the type of the query
-    fn transform<R: Query>(mut self) -> QueryOne<'a, R> {
-        let x = QueryOne {
+    fn transform<R: Query>(self) -> QueryOne<'a, R> {
+        // Dropping `self` releases whatever was borrowed for `Q`; `R` may not be satisfied by this
+        // archetype at all, so it must acquire (and later release) its own borrows.
+        QueryOne {
             archetype: self.archetype,
             index: self.index,
-            borrowed: self.borrowed,
+            borrowed: false,
             _marker: PhantomData,
-        };
-        // Ensure `Drop` won't fire redundantly
-        self.borrowed = false;
-        x
+        }
     }
 }
 
